@@ -366,7 +366,7 @@ CloseDir(r) ==      \* result ignored in both places
 
 FstatDst(r) ==      \* failure: dest_st.st_dev = st_ino = 0, no message
   /\ Sys /\ pc = "fstat_dst" /\ Fault(r) /\ dstStKnown' = (r = "ok")
-  /\ pc' = IF cfg.stdout /\ cfg.dec THEN "lseek_out" ELSE "unblock_od"
+  /\ pc' = IF cfg.stdout /\ cfg.dec /\ r = "ok" THEN "lseek_out" ELSE "unblock_od"   \* "else if (try_sparse ..."
   /\ UNCHANGED <<cur, fvars, srcOpen, dstOpen, dirOpen, restoreOut, success, iovars, sigBlocked, listSt, exitStatus>>
 
 (* lseek(): (a) stdout position probe for sparse output, (b) skipping a hole (io_write / io_close) *)
@@ -479,7 +479,7 @@ UnlinkSrc(r) ==
 
 ----------------------------------------------------------------------------
 (* main(): --files.  read_name() returns NULL at once when user_abort is set; stdio reads the whole
-   (small) list with one read(); the second read() returns 0.  k: "data" | "eof" | "err" *)
+   (small) list with one read(); the second read() returns 0.  k: "data" | "eof" | "err" | "eintr" (retried: read_name() "continue") *)
 ListRead(k) ==
   /\ Sys /\ pc = "main" /\ cfg.files /\ ~userAbort /\ pc' = pc
   /\ UNCHANGED <<cur, fvars, pvars, iovars, sigBlocked>>
@@ -488,6 +488,8 @@ ListRead(k) ==
                         /\ listSt' = "done" /\ UNCHANGED <<exitStatus, nfault>>
        [] k = "err"  -> /\ (listSt = "unread" \/ (listSt = "buffered" /\ ~NamesLeft)) /\ Fault(k)
                         /\ listSt' = "done" /\ exitStatus' = Err(exitStatus)
+       [] k = "eintr" -> /\ (listSt = "unread" \/ (listSt = "buffered" /\ ~NamesLeft)) /\ Fault(k)
+                        /\ UNCHANGED <<listSt, exitStatus>>
 ListClose ==     \* (void)fclose(args.files_file)
   /\ Sys /\ pc = "main" /\ cfg.files /\ listSt \in {"unread", "buffered", "done"}
   /\ listSt = "done" \/ userAbort
@@ -541,8 +543,9 @@ EnvReplace(what) ==
   /\ pc \notin Terminal /\ nfault < MaxFaults /\ nfault' = nfault + 1 /\ cur \in Files
   /\ envTouched' = Set(envTouched, TRUE)
   /\ pc # "main"                              \* while xz works on the file
-  /\ \/ what = "src" /\ src[cur] = "present" /\ src' = Set(src, "foreign") /\ UNCHANGED dst
-     \/ what = "dst" /\ ~cfg.stdout /\ dst[cur] \in {"partial", "complete"}
+  \* (not in the window between lstat() and unlink(): the race io_unlink() documents as unavoidable)
+  /\ \/ what = "src" /\ src[cur] = "present" /\ pc # "unlink_src" /\ src' = Set(src, "foreign") /\ UNCHANGED dst
+     \/ what = "dst" /\ ~cfg.stdout /\ dst[cur] \in {"partial", "complete"} /\ pc # "unlink_dst"
         /\ dst' = Set(dst, "foreign") /\ UNCHANGED src
   /\ UNCHANGED <<cfg, pc, cur, dstSynced, dirSynced, dstClosedOk, ioFailed, cleanupBroken, lostForeign,
                  pvars, iovars, sigvars, exitStatus, listSt>>
@@ -558,7 +561,7 @@ Next ==
   \/ \E r \in {"ok", "noent", "err"} : UnlinkDst(r)
   \/ \E k \in {"full", "short", "eof", "eintr", "err"} : Read(k)
   \/ \E k \in {"all", "short", "eintr", "err"}, f \in BOOLEAN : Write(k, f)
-  \/ \E k \in {"data", "eof", "err"} : ListRead(k)
+  \/ \E k \in {"data", "eof", "err", "eintr"} : ListRead(k)
   \/ ListClose
   \/ \E s \in Sigs : SigSend(s) \/ SigDeliver(s) \/ SigDfl(s) \/ Raise(s) \/ Died(s)
   \/ \E st \in 0..2 : Exit(st)
